@@ -90,3 +90,378 @@ class ValidRange(Spec):
                 return {F}
             return {G}
         return [(q, bps)], allowed
+
+
+# --------------------------------------------------------------------------------------------------
+# helpers for formula-based specs
+
+def holds(f, cell):
+    """evaluate a spec-built formula on a cell (all its quantities are in the cell)"""
+    v = X.eval_formula(f, cell)
+    if v is None:
+        raise KeyError(f'spec formula not decided by cell: {X.show(f)}')
+    return v
+
+
+def quantities_of(*formulas):
+    qs = {}
+    for f in formulas:
+        for a in X.atoms_of(f):
+            qs.setdefault(a[2], set()).add(a[3][1])
+    return [(q, sorted(b)) for q, b in qs.items()]
+
+
+def severity_spec(fail_f, susp_f):
+    """FAIL if fail_f, else SUSPECT if susp_f, else GOOD"""
+    def allowed(cell):
+        if fail_f is not None and holds(fail_f, cell):
+            return {F}
+        if susp_f is not None and holds(susp_f, cell):
+            return {S}
+        return {G}
+    return quantities_of(*[f for f in (fail_f, susp_f) if f is not None]), allowed
+
+
+class Location(Spec):
+    """A3"""
+
+    def __init__(self, case):
+        kw = case.kwargs
+        self.lon, self.lat = case.pat['lon'], case.pat['lat']
+        self.rejects = None
+        bbox = kw.get('bbox', (-180, -90, 180, 90))
+        if len(self.lon) != len(self.lat):
+            self.rejects = ('ValueError',)
+            return
+        if not isinstance(bbox, (list, tuple)) or len(bbox) != 4:
+            self.rejects = REJECT
+            return
+        self.minx, self.miny, self.maxx, self.maxy = (Fr(b) for b in bbox)
+        self.rmax = fr(kw.get('range_max'))
+
+    def full(self, p):
+        return self.lon[p] == 'p' and self.lat[p] == 'p'
+
+    def is_missing(self, p):
+        return self.lon[p] == 'm' and self.lat[p] == 'm'
+
+    def pos(self, p):
+        lo, la = self.lon[p], self.lat[p]
+        if lo == 'm' and la == 'm':
+            return [], lambda cell: {M}
+        box = []
+        if lo == 'p':
+            box += [X.cmp('lt', x('lon', p), X.num(self.minx)), X.cmp('gt', x('lon', p), X.num(self.maxx))]
+        if la == 'p':
+            box += [X.cmp('lt', x('lat', p), X.num(self.miny)), X.cmp('gt', x('lat', p), X.num(self.maxy))]
+        if lo != la:
+            return quantities_of(*box), lambda cell: {F}
+        fail_f = X.f_or(*box)
+        susp_f = None
+        if self.rmax is not None and p >= 1 and self.full(p - 1):
+            d = X.fn('geodist', *_geo_args(p - 1, p))
+            susp_f = X.cmp('gt', d, X.num(self.rmax))
+        return severity_spec(fail_f, susp_f)
+
+
+def _geo_args(a, b):
+    p1, p2 = sorted([(x('lat', a), x('lon', a)), (x('lat', b), x('lon', b))], key=repr)
+    return p1[0], p1[1], p2[0], p2[1]
+
+
+class Spike(Spec):
+    """A5"""
+
+    def __init__(self, case):
+        kw = case.kwargs
+        self.pat = case.pat['inp']
+        self.s, self.f = fr(kw.get('suspect_threshold')), fr(kw.get('fail_threshold'))
+        self.method = kw.get('method', 'average')
+        self.rejects = None if self.method in ('average', 'differential') else ('ValueError',)
+
+    def is_missing(self, p):
+        return self.pat[p] == 'm'
+
+    def pos(self, p):
+        n = len(self.pat)
+        if p == 0 or p == n - 1:
+            return [], (lambda cell: {U, M}) if self.pat[p] == 'm' else (lambda cell: {U})
+        if self.pat[p] == 'm':
+            return [], lambda cell: {M}
+        if self.pat[p - 1] == 'm' or self.pat[p + 1] == 'm':
+            return [], lambda cell: {M, U, G}
+        a, b, c = x('inp', p - 1), x('inp', p), x('inp', p + 1)
+        if self.method == 'average':
+            d = X.abs_(X.sub(b, X.scale(X.add(a, c), Fr(1, 2))))
+            ff = X.cmp('gt', d, X.num(self.f)) if self.f is not None else None
+            sf = X.cmp('gt', d, X.num(self.s)) if self.s is not None else None
+            return severity_spec(ff, sf)
+        s1, s2 = X.sub(b, a), X.sub(c, b)
+        m = X.min_(X.abs_(s1), X.abs_(s2))
+        opposite = X.cmp('lt', X.mul(s1, s2), X.num(0))
+        ff = X.f_and(opposite, X.cmp('gt', m, X.num(self.f))) if self.f is not None else None
+        sf = X.f_and(opposite, X.cmp('gt', m, X.num(self.s))) if self.s is not None else None
+        if self.f is not None and self.f < 0:
+            ff = X.f_or(ff, X.f_not(opposite))      # d = 0 exceeds a negative threshold
+        if self.s is not None and self.s < 0:
+            sf = X.f_or(sf, X.f_not(opposite))
+        qs, allowed = severity_spec(ff, sf)
+        if not any(q == opposite[2] for q, _ in qs):
+            qs = qs + quantities_of(opposite)
+        return qs, allowed
+
+
+class RateOfChange(Spec):
+    """A6"""
+
+    def __init__(self, case):
+        self.pat = case.pat['inp']
+        self.t = case.meta['t']
+        self.thr = Fr(case.kwargs['threshold'])
+        self.rejects = ('ValueError',) if len(self.t) != len(self.pat) else None
+
+    def is_missing(self, p):
+        return self.pat[p] == 'm'
+
+    def pos(self, p):
+        if self.pat[p] == 'm':
+            return [], lambda cell: {M}
+        if p == 0 or self.pat[p - 1] == 'm':
+            return [], lambda cell: {G}
+        dt = Fr(self.t[p] - self.t[p - 1])
+        d = X.abs_(X.sub(x('inp', p), x('inp', p - 1)))
+        return severity_spec(None, X.cmp('gt', d, X.num(self.thr * dt)))
+
+
+class Speed(Spec):
+    """A7"""
+
+    def __init__(self, case):
+        kw = case.kwargs
+        self.lon, self.lat = case.pat['lon'], case.pat['lat']
+        self.t = case.meta['t']
+        self.s, self.f = Fr(kw['suspect_threshold']), Fr(kw['fail_threshold'])
+        self.rejects = None
+        if not (len(self.lon) == len(self.lat) == len(self.t)):
+            self.rejects = ('ValueError',)
+
+    def full(self, p):
+        return self.lon[p] == 'p' and self.lat[p] == 'p'
+
+    def is_missing(self, p):
+        return self.lon[p] == 'm' and self.lat[p] == 'm'
+
+    def pos(self, p):
+        both_missing = self.is_missing(p)
+        if p == 0:
+            return [], (lambda cell: {U, M}) if both_missing else (lambda cell: {U})
+        if both_missing:
+            return [], lambda cell: {M}
+        if not self.full(p):
+            return [], lambda cell: {M, U, F}
+        if not self.full(p - 1):
+            return [], lambda cell: {M, U}
+        dt = Fr(self.t[p] - self.t[p - 1])
+        d = X.abs_(X.fn('geodist', *_geo_args(p - 1, p)))
+        return severity_spec(X.cmp('gt', d, X.num(self.f * dt)), X.cmp('gt', d, X.num(self.s * dt)))
+
+
+def _range_expr(atoms):
+    if len(atoms) <= 1:
+        return X.num(0)
+    return X.sub(X.max_(*atoms), X.min_(*atoms))
+
+
+class FlatLine(Spec):
+    """A8"""
+
+    def __init__(self, case):
+        import math
+        kw = case.kwargs
+        self.pat = case.pat['inp']
+        self.t = case.meta['t']
+        self.tol = Fr(kw.get('tolerance', 0))
+        self.rejects = None
+        n = len(self.pat)
+        if n >= 2:
+            D = Fr(self.t[1] - self.t[0])
+            self.ks = math.floor(Fr(int(kw['suspect_threshold'])) / D)
+            self.kf = math.floor(Fr(int(kw['fail_threshold'])) / D)
+
+    def is_missing(self, p):
+        return self.pat[p] == 'm'
+
+    def pos(self, p):
+        n = len(self.pat)
+        if self.pat[p] == 'm':
+            return [], lambda cell: {M}
+        if n < 3:
+            return [], lambda cell: {G}
+
+        def flat(k):
+            if p < k:
+                return X.FALSE
+            atoms = [x('inp', j) for j in range(p - k, p + 1) if self.pat[j] == 'p']
+            return X.cmp('lt', _range_expr(atoms), X.num(self.tol))
+        return severity_spec(flat(self.kf), flat(self.ks))
+
+
+class Attenuated(Spec):
+    """A9"""
+
+    def __init__(self, case):
+        import math
+        kw = case.kwargs
+        self.pat = case.pat['inp']
+        self.t = case.meta['t']
+        self.s, self.f = Fr(kw['suspect_threshold']), Fr(kw['fail_threshold'])
+        self.ct = kw.get('check_type', 'std')
+        self.period = fr(kw.get('test_period'))
+        self.rejects = None if self.ct in ('std', 'range') else ('ValueError',)
+        self.min_required = 1
+        if kw.get('min_obs') is not None:
+            self.min_required = kw['min_obs']
+        elif kw.get('min_period') is not None and len(self.t) >= 2:
+            D = Fr(self.t[1] - self.t[0])
+            self.min_required = math.trunc(Fr(kw['min_period']) / D)
+
+    def is_missing(self, p):
+        return self.pat[p] == 'm'
+
+    def pos(self, p):
+        n = len(self.pat)
+        if self.pat[p] == 'm':
+            return [], lambda cell: {M}
+        if not self.period:
+            idx = [j for j in range(n) if self.pat[j] == 'p']
+            atoms = [x('inp', j) for j in idx]
+            if self.ct == 'std':
+                q = X.red('std', atoms) if len(atoms) > 1 else X.num(0)
+            else:
+                q = _range_expr(atoms)
+            return severity_spec(X.cmp('lt', q, X.num(self.f)), X.cmp('lt', q, X.num(self.s)))
+        win = [j for j in range(n) if self.t[p] - self.period < self.t[j] <= self.t[p]]
+        obs = [j for j in win if self.pat[j] == 'p']
+        if len(obs) < max(self.min_required, 1):
+            return [], lambda cell: {U}
+        atoms = [x('inp', j) for j in obs]
+        if self.ct == 'std':
+            if len(obs) < 2:
+                return [], lambda cell: {U}
+            q = X.red('std_sample', atoms)
+            loose = False
+        else:
+            q = _range_expr(atoms)
+            loose = len(obs) != len(win)     # a missing value inside the window: max-min may be undefined
+        qs, allowed = severity_spec(X.cmp('lt', q, X.num(self.f)), X.cmp('lt', q, X.num(self.s)))
+        if loose:
+            return qs, lambda cell: allowed(cell) | {U}
+        return qs, allowed
+
+
+class Density(Spec):
+    """A10 (depths are concrete numbers in the scenario, densities symbolic)"""
+
+    def __init__(self, case):
+        kw = case.kwargs
+        self.inp, self.zp = case.pat['inp'], case.pat['zinp']
+        self.z = case.meta['z']
+        self.s, self.f = fr(kw.get('suspect_threshold')), fr(kw.get('fail_threshold'))
+        self.rejects = ('ValueError',) if len(self.inp) != len(self.zp) else None
+
+    def present(self, p):
+        return self.inp[p] == 'p' and self.zp[p] == 'p'
+
+    def is_missing(self, p):
+        return not self.present(p)
+
+    def pos(self, p):
+        n = len(self.inp)
+        if n == 1:
+            return [], (lambda cell: {U}) if self.present(0) else (lambda cell: {U, M})
+        if not self.present(p):
+            return [], lambda cell: {M}
+        if p >= 1 and not self.present(p - 1):
+            return [], lambda cell: {M}
+        deltas = []
+        for a, b in ((p - 1, p), (p, p + 1)):
+            if a < 0 or b >= n or not self.present(a) or not self.present(b):
+                continue
+            dz = Fr(self.z[b]) - Fr(self.z[a])
+            sg = (dz > 0) - (dz < 0)
+            deltas.append(X.scale(X.sub(x('inp', b), x('inp', a)), sg))
+        ff = X.f_or(*[X.cmp('lt', d, X.num(self.f)) for d in deltas]) if self.f is not None else None
+        sf = X.f_or(*[X.cmp('lt', d, X.num(self.s)) for d in deltas]) if self.s is not None else None
+        return severity_spec(ff, sf)
+
+
+class Climatology(Spec):
+    """A4.  case.meta: t (seconds), feat {(t, period): value}, z (concrete depths or None per point),
+    members: list of dict(tspan=(a,b) seconds or period numbers, period, zspan, fspan, vspan)"""
+
+    def __init__(self, case):
+        self.pat = case.pat['inp']
+        self.zp = case.pat['zinp']
+        self.t = case.meta['t']
+        self.z = case.meta['z']
+        self.feat = case.meta.get('feat', {})
+        self.members = case.meta['members']
+
+    def is_missing(self, p):
+        return self.pat[p] == 'm'
+
+    def matches(self, m, p):
+        if m.get('period') is None:
+            tv = Fr(self.t[p])
+        else:
+            per = {'weekofyear': 'week'}.get(m['period'], m['period'])
+            tv = Fr(self.feat[(Fr(self.t[p]), per)])
+        a, b = sorted(Fr(v) for v in m['tspan'])
+        if not (a <= tv <= b):
+            return False
+        if m.get('zspan') is not None:
+            if self.zp[p] != 'p':
+                return False
+            z0, z1 = sorted(Fr(v) for v in m['zspan'])
+            if not (z0 <= Fr(self.z[p]) <= z1):
+                return False
+        return True
+
+    def pos(self, p):
+        if self.pat[p] == 'm':
+            return [], lambda cell: {M}
+        last = None
+        for m in self.members:
+            if self.matches(m, p):
+                last = m
+        q = x('inp', p)
+        bps = []
+        for m in self.members:
+            bps += [Fr(v) for v in m['vspan']]
+            if m.get('fspan') is not None:
+                bps += [Fr(v) for v in m['fspan']]
+        if last is None:
+            return [(q, bps)], lambda cell: {U}
+        v0, v1 = sorted(Fr(v) for v in last['vspan'])
+        ff = None
+        if last.get('fspan') is not None:
+            f0, f1 = sorted(Fr(v) for v in last['fspan'])
+            ff = X.f_or(X.cmp('lt', q, X.num(f0)), X.cmp('gt', q, X.num(f1)))
+        sf = X.f_or(X.cmp('lt', q, X.num(v0)), X.cmp('gt', q, X.num(v1)))
+        qs, allowed = severity_spec(ff, sf)
+        return [(q, bps)], allowed
+
+
+def pressure_expected(values):
+    """A11 on concrete numbers (None = NaN is outside the property's statement)"""
+    n = len(values)
+    flags = [G] * n
+    if n < 2:
+        return flags
+    steps = [values[i + 1] - values[i] for i in range(n - 1)]
+    mean = sum(steps) / len(steps)
+    sg = -1 if mean < 0 else 1
+    for i, s in enumerate(steps):
+        if sg * s <= 0:
+            flags[i + 1] = S
+    return flags
